@@ -772,18 +772,28 @@ func (parser *Parser) peekAfterPrefix(depth int) (tok Token, err error) {
 	if depth > 0 {
 		return parser.ParserPeekNextToken(0)
 	}
-	tok, err = parser.lexer.PeekNextToken(0)
-	if err != nil || tok.typ != TokenEnd {
-		return
+	for {
+		tok, err = parser.lexer.PeekNextToken(0)
+		if err != nil || tok.typ != TokenEnd {
+			return
+		}
+		produced, unfinished, ferr := parser.lexer.finishTopLevel()
+		if ferr != nil {
+			return tok, ferr
+		}
+		if produced {
+			continue
+		}
+		if !unfinished {
+			return
+		}
+		// the operand is a string, rune, raw string or block comment
+		// that is still open: more input is needed.
+		parser.sendMe.Err = ErrMoreInputNeeded
+		if !parser.yield(parser.sendMe) {
+			return tok, ParserHaltRequested
+		}
 	}
-	produced, _, ferr := parser.lexer.finishTopLevel()
-	if ferr != nil {
-		return tok, ferr
-	}
-	if produced {
-		return parser.lexer.PeekNextToken(0)
-	}
-	return
 }
 
 // parsePrefixOperand parses the expression a prefix token applies to. The
